@@ -145,6 +145,76 @@ def crash_async(cfg, kind):
     return h
 
 
+def crash_remote(topo, cfg, culprit, kind):
+    """the simulators listed in cfg['remote'] are connected through the in-memory remote transport (vk.remote): the real RemoteProxy,
+    Channel and simulator-side loop.  kind: 'raise' (the handler raises: a failure reply), 'die_before' / 'die_after' (the process
+    exits when the request arrives / after handling it, before the reply: the connection closes)."""
+    def h(eng):
+        from loguru import logger
+        from vk import remote as R
+        nreq = 2 * cfg.get('K', 2) + 1
+        fi = eng.int('fault_at', 0, nreq - 1)
+        st = {'n': 0, 'fired': None}
+
+        def rfault(ep, name, when, r):
+            if getattr(ep.sim, 'sid', None) != culprit or not sysrun.CTX['loop'].active:
+                return r
+            if when == 'before':
+                idx = st['n']
+                st['n'] += 1
+                st['cur'] = idx
+                if st['fired'] is None and bool(fi == idx):
+                    st['fired'] = (idx, name)
+                    if kind == 'die_before':
+                        ep.die()
+                        raise R.Die()
+                return r
+            if st['fired'] is not None and st['fired'][0] == st.get('cur') and not st.get('raised'):
+                st['raised'] = True
+                if kind == 'raise':
+                    raise RuntimeError('boom (simulator handler failed)')
+                if kind == 'die_after':
+                    ep.die()
+                    raise R.Die()
+            return r
+        errs = []
+        hid = logger.add(lambda m: errs.append(str(m)), level='ERROR', format='{message}')
+        try:
+            sysrun.CTX_EXTRA = {'remote_fault': rfault}
+            r = sysrun.run_world(eng, topo, cfg, rules=())
+        finally:
+            sysrun.CTX_EXTRA = {}
+            logger.remove(hid)
+        log, loop = r.log, r.loop
+        fp = [topo['name'], culprit, kind, 'remote']
+        desc = f"{topo['name']} remote={cfg.get('remote')} culprit={culprit} kind={kind} at request {st['fired']}"
+        if st['fired'] is None:
+            return ('nofault:' + str(r.outcome), {'nontrivial': False})
+        if r.outcome in ('deadlock', 'livelock'):
+            eng.alarm('C14.hang', f'run() {r.outcome} after the fault: {desc}; in flight={[(w.label, len(w.inflight)) for w in loop.wires]}', {'fp': fp})
+        elif r.outcome == 'done':
+            eng.check(bool(errs), 'C14.silent', f'run() completed normally and logged no error although a simulator failed: {desc}', {'fp': fp})
+        for sid in topo['types']:
+            if sid == culprit:
+                continue
+            fin = [i for i, x in enumerate(log) if x[0] == 'finalize' and x[1] == sid]
+            eng.check(len(fin) == 1, 'C14.finalize', f'{sid} was finalized {len(fin)} times: {desc}', {'fp': fp})
+            if fin:
+                later = [x for x in log[fin[0] + 1:] if x[1] == sid and x[0] in ('step', 'get_data', 'setup_done')]
+                eng.check(not later, 'C14.after_stop', f'{sid} received {later[:3]} after finalize: {desc}', {'fp': fp})
+        left = [getattr(ep.sim, 'sid', '?') for ep in loop.endpoints if ep.ended == 'left-behind']
+        eng.check(not left, 'C14.process', f'simulator process(es) {left} still running one (virtual) second after run() ended: neither a stop request '
+                  f'nor a closed connection reached them: {desc}', {'fp': fp})
+        open_ = getattr(loop, 'mosaik_side_open', [])
+        eng.check(not open_, 'C14.socket', f'connection(s) {open_} not closed by mosaik when run() ended: {desc}', {'fp': fp})
+        eng.check(loop.is_closed(), 'C14.loop', f'event loop not closed after run(): {desc}', {'fp': fp})
+        leaked = loop.leaked or []
+        eng.check(not leaked, 'C14.leak', f'{len(leaked)} unfinished task(s) when the loop was closed: {sorted(leaked)[:4]}: {desc}',
+                  {'fp': fp, 'runner_only': all(n.startswith('Runner for') for n in leaked)})
+        return (r.outcome, {'nontrivial': True, 'fired': st['fired'], 'leaked': len(leaked), 'errs': len(errs)})
+    return h
+
+
 def jobs(tier):
     q = tier == 'quick'
     cur = {t['name']: t for t in T.curated()}
@@ -175,6 +245,26 @@ def jobs(tier):
                             cfg.update({'no_self': ['A', 'B'], 'until': 2, 'K': 3})
                         out.append({'id': f"{name}|{culprit}|{kind}|{stage}|sync={''.join(sync) or '-'}|lazy={int(lazy)}", 'harness': 'vk.kernels.c14:crash',
                                     'params': {'topo': t, 'cfg': cfg, 'culprit': culprit, 'kind': kind, 'stage': stage}, 'budget_s': 300})
+    # remote transport in memory (vk.remote): handler failure, process exit before / after handling a request
+    rplans = [('tb2', ['A', 'B'], [['A', 'B']], True), ('hyb2', ['A'], [['A', 'B'], ['A']], True), ('tb_ev', ['A'], [['A', 'B']], True)]
+    if not q:
+        rplans += [('tb2', ['A', 'B'], [['A', 'B'], ['A'], ['B']], False), ('hyb2', ['B'], [['A', 'B'], ['B']], True), ('tb_ev', ['B'], [['A', 'B']], True),
+                   ('chain3ev', ['A', 'B'], [['A', 'B', 'C']], True), ('tbchain3', ['B'], [['A', 'B', 'C'], ['B']], True), ('fanin', ['C'], [['A', 'B', 'C']], True)]
+    for name, culprits, remotes, lazy in rplans:
+        t = cur[name]
+        for culprit in culprits:
+            for remote in remotes:
+                if culprit not in remote:
+                    continue
+                for kind in ('raise', 'die_before', 'die_after'):
+                    for cache in ((True,) if q else (True, False)):
+                        # local simulators of a mixed scenario answer asynchronously
+                        cfg = {'until': 3, 'K': 2, 'cache': cache, 'lazy': lazy, 'D': 0, 'sync': [], 'salt': 0, 'remote': remote}
+                        j = {'id': f"remote|{name}|{culprit}|{kind}|remote={''.join(remote)}|lazy={int(lazy)}|cache={int(cache)}",
+                             'harness': 'vk.kernels.c14:crash_remote', 'params': {'topo': t, 'cfg': cfg, 'culprit': culprit, 'kind': kind}, 'budget_s': 300}
+                        if len(t['types']) > 2:
+                            j['split_depth'] = 16
+                        out.append(j)
     for kind in ('raise', 'reset') + (() if q else ('eof', 'typeerr')):
         for sync in ([[], ['B'], ['X']] if q else [[], ['A'], ['B'], ['X'], ['A', 'B', 'X']]):
             for cache in (False,) + (() if q else (True,)):
